@@ -576,7 +576,7 @@ def run(ctx):
         shards.append((f, cases))
         return cases
 
-    ngrids = 2 if quick else 6
+    ngrids = 2 if quick else 20
     GRIDS = [dict(NT=5, T_MIN=0, DT=100, NTV=6, P_MIN=0, DELTA_P=10, nvol=8),
              dict(NT=3, T_MIN=10.5, DT=12.5, NTV=7, P_MIN=1.5, DELTA_P=2.5, nvol=7)]
     while len(GRIDS) < ngrids:
@@ -620,7 +620,7 @@ def run(ctx):
 
     # real Calculator.write_output()
     import synth
-    nreal = 1 if quick else 2
+    nreal = 1 if quick else 4
     for ri in range(nreal):
         g = [dict(NT=4, T_MIN=0, DT=100, NTV=6, P_MIN=0, DELTA_P=2),
              dict(NT=6, T_MIN=20, DT=37.5, NTV=9, P_MIN=1, DELTA_P=1.5)][ri]
